@@ -152,7 +152,13 @@ def s2_s3_update(ctx):
         # the clock is set to dt before anything else and never rewritten
         cw = heap_writes(p, 'current_dt', into_loops=True)
         cw = [w for w in cw if w.loc == A('self', 'current_dt')]
-        ctx.require(len(cw) == 1 and cw[0].value == V('dt') and p.events and p.events[0] is cw[0], 'C04.S2',
+        # nothing that writes, and nothing that reads the clock, comes before the clock is set (entering a helper, a wrapper's book-keeping of locals do not count)
+        flat_ = [e_ for e_ in p.flat_events() if e_.kind in ('write', 'call')]
+        before_ = flat_[:flat_.index(cw[0])] if cw and cw[0] in flat_ else flat_
+        clk_ = A('self', 'current_dt')
+        early = [e_ for e_ in before_ if (e_.kind == 'write' and not e_.d.get('local')) or
+                 (e_.kind == 'call' and any(isinstance(a_, tuple) and any(s_ == clk_ for s_ in T.subterms(a_)) for a_ in list(e_.args.values()) + [e_.d.get('recv') or ()]))]
+        ctx.require(len(cw) == 1 and cw[0].value == V('dt') and not early, 'C04.S2',
                     'update first sets the broker clock to dt and never rewrites it [%s]' % cond_str(p)[:80], cw[0].site if cw else fn.site(),
                     key='C04.S2|clock')
     for p in nps:
